@@ -414,3 +414,24 @@ Proof.
   { constructor; cbn [j_ms j_st j_cons j_full j_ord j_last]; auto. intros _. exact I. }
   exact (peer_delivered (mkJ st true true true None s) pods w IV eq_refl eq_refl FS CF A).
 Qed.
+
+(* ------------------------------------------------------------------ unconditionally *)
+(* every history is flag-stable (Proofs_inf_apply.flag_stable_all), so the hypothesis goes *)
+Lemma eprop_code_trace_all g es : eprop_code g es (etrace (init_topo g) es) = 0.
+Proof. apply eprop_code_trace, flag_stable_all. Qed.
+
+Lemma covered_history_wf_all g es :
+  let j := ejudge (init_judge g) es in
+  j_ord j = true ->
+  WF (erun g es)
+  /\ (j_cons j = true -> NsOK (j_st j) (erun g es))
+  /\ (j_full j = true -> StoreOK (j_st j) (erun g es)).
+Proof. apply covered_history_wf, flag_stable_all. Qed.
+
+Lemma peer_written_all s st pods w :
+  sorted_topo s -> ksorted st ->
+  WF s -> mem ROOT (hier s) = true -> NsOK st s -> StoreOK st s ->
+  cons_full st w = true -> accepted s (pods, w) = true ->
+  exists s', inf_apply s w = (s', false) /\ WF s' /\ mem ROOT (hier s') = true
+             /\ NsOK (store_step st true (pods, w)) s' /\ StoreOK (store_step st true (pods, w)) s'.
+Proof. intros S SS W MR N SO CF A. apply peer_written; auto. apply flag_stable_op_true. Qed.
